@@ -76,7 +76,7 @@ func init() {
 	register(&Property{ID: "C10", Level: "exploration",
 		Rule: "cases = curated descriptors (k1 fixture-like configuration; k5, k7, k8, k9, k3 each under V pseudo-random option sets) + seeded random descriptors with random option sets: arbitrary subsets of fields for required / computed / sensitive keyed by full path or Message.Field, validator and plan-modifier lists carrying ids, use_state_for_unknown_by_default on / off, injected fields at the root and at nested paths, comments of ten torture shapes (multi-line, indented, CRLF, blank lines, quotes, tabs, unicode, none); one evaluation = one GenSchemaT call walked attribute by attribute against the reference model (counter attributes-judged; injected-judged; placeholders-judged) plus CopyTo runs that must not emit injected attributes; distinct = distinct (field path, flag combination, list lengths, comment presence) tuples",
 		Check: func(r *Run) {
-			cases := curatedCases("k1", "k3", "k5", "k6a", "k7", "k8", "k9", "k10a", "k10b")
+			cases := curatedCases("k1", "k3", "k5", "k6a", "k7", "k8", "k9", "k10a", "k10b", "k12")
 			for _, n := range []string{"k5", "k7", "k8", "k9", "k3", "k6a", "k10b"} {
 				for k := 0; k < r.pick(2, 12); k++ {
 					cases = append(cases, caseFrom(descgen.OptionVariant(descgen.CuratedByName(n), r.Seed, k)))
